@@ -137,7 +137,7 @@ mod verif_cert_w {
 
     //------------ issued certificates: CA, EE, router ---------------------------------------------------
 
-    //@harness cert_w_issued W fn=Cert::{validate_ca_at,validate_ee_at,validate_detached_ee_at,validate_router_at,inspect_ca,inspect_ee,inspect_router,inspect_basics,verify_ca_at,verify_ee_at,verify_router_at,verify_validity,verify_issuer_claim,verify_signature},Validity::{new,verify_at},Time::{verify_not_before,verify_not_after},KeyIdentifier::eq,SignedData::verify_signature n=15000 timeout=900
+    //@harness cert_w_issued W fn=Cert::{validate_ca_at,validate_ee_at,validate_detached_ee_at,validate_router_at,inspect_ca,inspect_ee,inspect_router,inspect_basics,verify_ca_at,verify_ee_at,verify_router_at,verify_validity,verify_issuer_claim,verify_signature},Validity::{new,verify_at},Time::{verify_not_before,verify_not_after},KeyIdentifier::eq,SignedData::verify_signature n=40000 timeout=900
     verif_search!{ cert_w_issued; |sel: u8, strict: bool, mode: u8, var: u8, k: u8, idx: u16, bit: u8, extra: [u8; 4], kid: [u8; 20],
                                    scale: u8, secs: i32, ms: i16, scale2: u8, secs2: i32, ms2: i16| {
         let f = fix();
@@ -312,7 +312,7 @@ mod verif_cert_w {
     fn as_res(f: &Fam) -> AsResources { match f.choice { 0 => AsResources::missing(), 1 => AsResources::inherit(), _ => AsResources::blocks(as_blocks(&f.claim)) } }
     const TOP32: u128 = u32::MAX as u128;
 
-    //@harness cert_w_resources W fn=Cert::{validate_ca_at,validate_ee_at,validate_router_at,verify_resources,verify_as_resources},IpBlocks::{verify_issued,contains,intersection},AsBlocks::verify_issued,Chain::{trim,is_encompassed} n=40000 timeout=900
+    //@harness cert_w_resources W fn=Cert::{validate_ca_at,validate_ee_at,validate_router_at,verify_resources,verify_as_resources},IpBlocks::{verify_issued,contains,intersection},AsBlocks::verify_issued,Chain::{trim,is_encompassed} n=100000 timeout=900
     verif_search!{ cert_w_resources; |sel: u8, strict: bool, pol_s: bool, pol_i: bool,
                                       c4: u8, i4: u8, ri4: [u8; 8], s4: u8, rs4: [u8; 8], rel4: u8, m4: u8,
                                       c6: u8, i6: u8, ri6: [u8; 8], s6: u8, rs6: [u8; 8], rel6: u8, m6: u8,
@@ -352,7 +352,7 @@ mod verif_cert_w {
 
     //------------ trust anchor --------------------------------------------------------------------------
 
-    //@harness cert_w_ta W fn=Cert::{validate_ta_at,inspect_ta,verify_ta_at,verify_ta_ref_at,verify_validity},IpBlocks::from_resources,AsBlocks::from_resources,Validity::verify_at,SignedData::verify_signature n=10000 timeout=900
+    //@harness cert_w_ta W fn=Cert::{validate_ta_at,inspect_ta,verify_ta_at,verify_ta_ref_at,verify_validity},IpBlocks::from_resources,AsBlocks::from_resources,Validity::verify_at,SignedData::verify_signature n=25000 timeout=900
     verif_search!{ cert_w_ta; |strict: bool, mode: u8, var: u8, k: u8, idx: u16, bit: u8, extra: [u8; 4], kid: [u8; 20],
                                scale: u8, secs: i32, ms: i16, scale2: u8, secs2: i32, ms2: i16,
                                s4: u8, rs4: [u8; 8], m4: u8, s6: u8, rs6: [u8; 8], m6: u8, sa: u8, rsa: [u8; 8], ma: u8| {
@@ -432,7 +432,7 @@ mod verif_cert_w {
 
     //------------ PublicKey::verify ---------------------------------------------------------------------
 
-    //@harness cert_w_keys W fn=PublicKey::verify,PublicKeyFormat::verify,SignedData::verify_signature,Cert::{verify_signature,validate_ca_at,verify_ta_ref_at} n=4000 timeout=900
+    //@harness cert_w_keys W fn=PublicKey::verify,PublicKeyFormat::verify,SignedData::verify_signature,Cert::{verify_signature,validate_ca_at,verify_ta_ref_at} n=6000 timeout=900
     verif_search!{ cert_w_keys; |strict: bool, mode: u8, var: u8, k: u8, idx: u16, bit: u8, extra: [u8; 4]| {
         let f = fix();
         // an ECDSA P-256 key with a message and its ECDSA signature: the self-signed router certification request
